@@ -252,7 +252,7 @@ theorem undelegs_stake (e : HubEnv) (claim : Nat) (ms : List Msg) (he : e.self =
 theorem hub_books_stepG (h h' : HubSt) (e : HubEnv) (sender : Addr) (funds : List (Denom × Nat))
     (m : HubMsg) (ms : List Msg) (T : Nat) (he : e.self = hubA)
     (hT : (e.delegations.map (·.2)).sum = T)
-    (hinv : h.bBond + h.sBond ≤ T ∨ ((m = .bond ∨ m = .bondForStSei ∨ ∃ u a k, m = .receive u a k) ∧
+    (hinv : h.bBond + h.sBond ≤ T ∨ ((m = .bond ∨ m = .bondForStSei ∨ (∃ u a k, m = .receive u a k) ∨ m = .bondRewards) ∧
       e.delegations ≠ [] ∧ h.bBond + h.sBond ≠ 0))
     (hx : hubExec h e sender funds m = .ok (h', ms)) :
     ∃ pre rest, ms = pre ++ rest ∧ (∀ x ∈ pre, isStake x = true) ∧ (∀ x ∈ rest, isStake x = false) ∧
@@ -273,14 +273,15 @@ theorem hub_books_stepG (h h' : HubSt) (e : HubEnv) (sender : Addr) (funds : Lis
       ∃ pre rest', rest = pre ++ rest' ∧ (∀ y ∈ pre, isStake y = true) ∧ (∀ y ∈ rest', isStake y = false) ∧
         x.bBond + x.sBond + undelSum pre ≤ T + delSum pre :=
     fun rest hb hr => ⟨[], rest, rfl, (fun _ hm => by cases hm), hr, (by simp [undelSum, delSum]; exact hb)⟩
-  have nt : (m ≠ .bond ∧ m ≠ .bondForStSei ∧ ∀ u a k, m ≠ .receive u a k) → h.bBond + h.sBond ≤ T := by
+  have nt : (m ≠ .bond ∧ m ≠ .bondForStSei ∧ (∀ u a k, m ≠ .receive u a k) ∧ m ≠ .bondRewards) → h.bBond + h.sBond ≤ T := by
     intro hn
     rcases hinv with h1 | ⟨ht, _⟩
     · exact h1
-    · rcases ht with r | r | ⟨u, a, k, r⟩
+    · rcases ht with r | r | ⟨u, a, k, r⟩ | r
       · exact absurd r hn.1
       · exact absurd r hn.2.1
-      · exact absurd r (hn.2.2 u a k)
+      · exact absurd r (hn.2.2.1 u a k)
+      · exact absurd r hn.2.2.2
   cases m with
   | migrateWaitList limit =>
     simp only [hubExec] at hx
@@ -291,7 +292,7 @@ theorem hub_books_stepG (h h' : HubSt) (e : HubEnv) (sender : Addr) (funds : Lis
       unfold migrate
       simp only []
       split
-      · exact (nt ⟨nofun, nofun, fun _ _ _ => nofun⟩)
+      · exact (nt ⟨nofun, nofun, fun _ _ _ => nofun, nofun⟩)
       · show (List.foldl migrateOne h _).bBond + (List.foldl migrateOne h _).sBond ≤ T
         have : ∀ (l : List (Addr × Nat × Nat)) (x : HubSt), (l.foldl migrateOne x).bBond = x.bBond ∧
             (l.foldl migrateOne x).sBond = x.sBond := by
@@ -299,7 +300,7 @@ theorem hub_books_stepG (h h' : HubSt) (e : HubEnv) (sender : Addr) (funds : Lis
           induction l with
           | nil => intro x; exact ⟨rfl, rfl⟩
           | cons a l ih => intro x; simp only [List.foldl_cons]; rw [(ih _).1, (ih _).2]; exact ⟨rfl, rfl⟩
-        rw [(this _ h).1, (this _ h).2]; exact (nt ⟨nofun, nofun, fun _ _ _ => nofun⟩)
+        rw [(this _ h).1, (this _ h).2]; exact (nt ⟨nofun, nofun, fun _ _ _ => nofun, nofun⟩)
     · cases hx
   | updateParams a b c d p r =>
     simp only [hubExec] at hx
@@ -311,7 +312,7 @@ theorem hub_books_stepG (h h' : HubSt) (e : HubEnv) (sender : Addr) (funds : Lis
       unfold updateParams at hp
       exc_norm at hp
       exc_split at hp
-      all_goals exact plain [] (nt ⟨nofun, nofun, fun _ _ _ => nofun⟩) (fun _ hm => by cases hm)
+      all_goals exact plain [] (nt ⟨nofun, nofun, fun _ _ _ => nofun, nofun⟩) (fun _ hm => by cases hm)
   | receive user amt hook =>
     simp only [hubExec] at hx
     split at hx
@@ -395,7 +396,7 @@ theorem hub_books_stepG (h h' : HubSt) (e : HubEnv) (sender : Addr) (funds : Lis
       exc_norm at hx
       exc_split at hx
       all_goals
-        refine plain _ (nt ⟨nofun, nofun, fun _ _ _ => nofun⟩) ?_
+        refine plain _ (nt ⟨nofun, nofun, fun _ _ _ => nofun, nofun⟩) ?_
         intro y hy
         simp only [List.mem_append, List.mem_map, List.mem_cons, List.mem_nil_iff, or_false] at hy
         rcases hy with ⟨d, _, rfl⟩ | rfl | rfl <;> rfl
@@ -410,7 +411,7 @@ theorem hub_books_stepG (h h' : HubSt) (e : HubEnv) (sender : Addr) (funds : Lis
       subst hh
       show (List.foldl (fun hh i => hh.delWait sender i) h1 (h1.finished sender).2).bBond +
         (List.foldl (fun hh i => hh.delWait sender i) h1 (h1.finished sender).2).sBond ≤ T
-      rw [fs.2.2.2.2.2.1, fs.2.2.2.2.2.2.1, sp.2.2.2.2.2.2.2.2.1, sp.2.2.2.2.2.2.2.2.2.1]; exact (nt ⟨nofun, nofun, fun _ _ _ => nofun⟩)
+      rw [fs.2.2.2.2.2.1, fs.2.2.2.2.2.2.1, sp.2.2.2.2.2.2.2.2.1, sp.2.2.2.2.2.2.2.2.2.1]; exact (nt ⟨nofun, nofun, fun _ _ _ => nofun, nofun⟩)
   | checkSlashing =>
     simp only [hubExec] at hx; split at hx
     · cases hx
@@ -426,26 +427,26 @@ theorem hub_books_stepG (h h' : HubSt) (e : HubEnv) (sender : Addr) (funds : Lis
     · unfold updateConfig at hx
       exc_norm at hx
       exc_split at hx
-      refine plain _ (nt ⟨nofun, nofun, fun _ _ _ => nofun⟩) ?_
+      refine plain _ (nt ⟨nofun, nofun, fun _ _ _ => nofun, nofun⟩) ?_
       intro y hy
       cases a with
       | none => cases hy
       | some dd => simp at hy; subst hy; rfl
   | setOwner a =>
     simp only [hubExec] at hx; exc_norm at hx; exc_split at hx
-    exact plain [] (nt ⟨nofun, nofun, fun _ _ _ => nofun⟩) (fun _ hm => by cases hm)
+    exact plain [] (nt ⟨nofun, nofun, fun _ _ _ => nofun, nofun⟩) (fun _ hm => by cases hm)
   | acceptOwnership =>
     simp only [hubExec] at hx; exc_norm at hx; exc_split at hx
-    exact plain [] (nt ⟨nofun, nofun, fun _ _ _ => nofun⟩) (fun _ hm => by cases hm)
+    exact plain [] (nt ⟨nofun, nofun, fun _ _ _ => nofun, nofun⟩) (fun _ hm => by cases hm)
   | swapHook =>
     simp only [hubExec] at hx; exc_norm at hx; exc_split at hx
-    exact plain _ (nt ⟨nofun, nofun, fun _ _ _ => nofun⟩) (by intro y hy; simp at hy; subst hy; rfl)
+    exact plain _ (nt ⟨nofun, nofun, fun _ _ _ => nofun, nofun⟩) (by intro y hy; simp at hy; subst hy; rfl)
   | claimAirdrop =>
     simp only [hubExec] at hx; exc_norm at hx; exc_split at hx
-    exact plain _ (nt ⟨nofun, nofun, fun _ _ _ => nofun⟩) (by intro y hy; simp at hy; rcases hy with rfl | rfl <;> rfl)
+    exact plain _ (nt ⟨nofun, nofun, fun _ _ _ => nofun, nofun⟩) (by intro y hy; simp at hy; rcases hy with rfl | rfl <;> rfl)
   | redelegateProxy src plan =>
     simp only [hubExec] at hx; exc_norm at hx; exc_split at hx
-    refine plain _ (nt ⟨nofun, nofun, fun _ _ _ => nofun⟩) ?_
+    refine plain _ (nt ⟨nofun, nofun, fun _ _ _ => nofun, nofun⟩) ?_
     intro y hy
     simp only [List.mem_map] at hy
     obtain ⟨pp, _, rfl⟩ := hy
